@@ -635,17 +635,25 @@ def run_shape_groups(ctx, shim, groups, stream, what, gen=None):
                 dist["kern_off"] += 1
                 if meta[2] in ("r", "b"): dist["backward+kern_off"] += 1
             for kind, detail in check_shape(meta, gl):
-                key = (kind, "kern=0" if meta[4] else "kern", meta[2] in ("r", "b")) if stream == "shape-clusters" else (kind, f"level {meta[3]}", request_class(shim, q))
+                cls = request_class(shim, q)
+                if stream == "shape-clusters" and not (kind == "monotone" and cls == "indic-shaper"):
+                    key = (kind, "kern=0" if meta[4] else "kern", meta[2] in ("r", "b"))
+                else:
+                    # also an input of the known class F13 that the corpus stream happens to draw (its random strings over a
+                    # font's corpus alphabet): judged and recorded like the script streams, whose name the signature carries
+                    key = (kind, f"level {meta[3]}", cls)
                 found.setdefault(key, []).append((len(q), reg, q, meta, rep, detail))
     for key, lst in sorted(found.items(), key=lambda kv: str(kv[0])):
         lst.sort(key=lambda x: x[0])
         _, reg, q, meta, rep, detail = lst[0]
-        ctx.violation(f"shape(): output clusters violate C02 ({key[0]}, {key[1]}, {(('backward' if key[2] else 'forward/guessed') + ' direction') if stream == 'shape-clusters' else stream + ' ' + str(key[2])}; "
+        by_class = isinstance(key[2], str)
+        ctx.violation(f"shape(): output clusters violate C02 ({key[0]}, {key[1]}, {(('backward' if key[2] else 'forward/guessed') + ' direction') if not by_class else 'shape-script-random ' + str(key[2])}; "
                       f"{len(lst)} shapings, {len(set(x[1] for x in lst))} fonts{'; generator ' + gen if gen else ''}): {detail}; text {q.split()[10]}, input clusters {meta[1]}, "
                       f"output clusters {[g[1] for g in parse_shape(rep)]}",
-                      {"stage": "search", "stream": stream, "font_line": reg, "request": q, "case": meta[0],
+                      {"stage": "search", "stream": "shape-script-random" if by_class else stream, "found_by": stream + ("/" + gen if gen else ""),
+                       "font_line": reg, "request": q, "case": meta[0],
                        "input_clusters": meta[1], "dir": meta[2], "level": meta[3], "kern_off": meta[4], "kind": key[0],
-                       "class": key[2] if stream != "shape-clusters" else shaper_class(q), "generator": gen or "random",
+                       "class": key[2] if by_class else shaper_class(q), "generator": gen or "random",
                        "observed": rep[:3000], "fonts": sorted(set(_font_name(x[1]) for x in lst))[:40], "count": len(lst),
                        "more_examples": [{"font": _font_name(x[1]), "request": x[2], "reply": x[4][:600]} for x in lst[1:6]]})
     ctx.note_search(stream + ("/" + gen if gen else ""), total, nontriv, crashed_or_aborted=crashed, distribution=dist,
